@@ -48,18 +48,18 @@ Record serve_out := mkServeOut { so_client : client; so_log : list dlv }.
 
 (* cachingFunc for a rule without a cache (or a method other than GET/HEAD) *)
 Definition serve_nocache (fuel : nat) (c : cfg) (rs : list rule) (q : req) (sc : script) : serve_out :=
-  match drop_port (q_host q) with
-  | None => mkServeOut (mkClient KRecovered 200 [] []) []
-  | Some host =>
+  let host := drop_port (q_host q) in
     let scheme := req_scheme (q_tls q) (hget (q_hdrs q) (bytes "X-Forwarded-Proto"%string)) in
     let '(pm, _) := rules_match rs scheme host (q_uri q) (q_method q) in
-    let rf_rule := match pm with Some (_, r, _) => Some r | None => None end in
+    (* GetRoutingFlavors: a URL parse error yields empty flavours *)
+    let rf_rule := if str_in (q_badhosts q) host then None
+                   else match pm with Some (_, r, _) => Some r | None => None end in
     let h' := match rf_rule with
               | Some r => preprocess_headers (q_hdrs q) (r_req_hdrs r)
               | None => q_hdrs q
               end in
     let q' := mkReq (q_method q) (q_host q) (q_tls q) (q_uri q) (q_query q) (q_url q) h'
-                    (q_body q) (q_remote_ip q) (q_uuid q) in
+                    (q_body q) (q_remote_ip q) (q_uuid q) (q_badhosts q) in
     let out := route_request fuel c rs q' (q_body q) None rf_rule sc [] in
     match rt_res out with
     | inr e => mkServeOut (write_error e) (rt_log out)
@@ -75,5 +75,4 @@ Definition serve_nocache (fuel : nat) (c : cfg) (rs : list rule) (q : req) (sc :
                       (clear_and_copy (rs_hdrs (ro_resp ok)) (always_include (ro_rule ok) s_pass))
                       (rs_body (ro_resp ok))) (rt_log out)
       end
-    end
-  end.
+    end.
